@@ -117,6 +117,7 @@ def run_check(pid, tier, seed):
     notes = {}
     cov = {"states": 0, "transitions": 0, "traces_validated_against_impl": 0, "samples": [], "jobs": [], "exhaustive": False}
     kinds_total = {}
+    classes_total = {}
     for job in spec["jobs"]:
         if tier not in job.get("tiers", ["quick", "thorough"]):
             continue
@@ -127,6 +128,8 @@ def run_check(pid, tier, seed):
             cov["traces_validated_against_impl"] += stats.get("histories", 0)
             for k, v in stats.get("kinds", {}).items():
                 kinds_total[k] = kinds_total.get(k, 0) + v
+            for k, v in stats.get("classes", {}).items():
+                classes_total[k] = classes_total.get(k, 0) + v
             cov["jobs"].append({"job": job["name"], "mode": "B: recorded executions judged by TLC (" + job["spec"] + ".tla)",
                                 "variant": job.get("variant", "release"), "recorder": stats.get("cmd"), "events": stats.get("events"),
                                 "histories": stats.get("histories"), "event_kinds": stats.get("kinds"), "extra": {k: v for k, v in stats.items() if k not in ("events", "histories", "kinds", "cmd", "wall_s")},
@@ -150,6 +153,8 @@ def run_check(pid, tier, seed):
                                 "exhaustive_within_family": gcfg.get("mod", 1) == 1, "mismatching_observations": len(res.mismatches)})
             for k, v in stats.get("kinds", {}).items():
                 kinds_total[k] = kinds_total.get(k, 0) + v
+            for k, v in stats.get("classes", {}).items():
+                classes_total[k] = classes_total.get(k, 0) + v
             if len(cov["samples"]) < 10:
                 cov["samples"] += recs[:2]
             for (f, line, prop, chk, txt) in res.mismatches:
@@ -213,6 +218,15 @@ def run_check(pid, tier, seed):
     for (prop, chk), n in sorted(notes.items()):
         print("NOTE: %d mismatching observation(s) of property=%s check=%s seen while checking %s (judged by that property's own check, not counted here)" % (n, prop, chk, pid))
     cov["event_kinds"] = kinds_total
+    if classes_total:
+        cov["transition_and_state_classes"] = classes_total
+        expected = ["quiet", "capture", "ep-capture", "double-push", "promotion", "promotion-capture", "castle-short", "castle-long", "castle-960-geometry",
+                    "castle-king-stays", "castle-rook-stays", "rights-lost-king-move", "rights-lost-rook-move", "rights-lost-capture", "gives-check",
+                    "gives-double-check", "evades-check", "pinned-piece-moves", "halfmove-saturated", "fullmove-saturated", "state-multiple-check"]
+        missing = [c for c in expected if c not in classes_total]
+        cov["classes_not_exercised"] = missing     # vacuity guard: reported, never changes the verdict
+        if missing:
+            log("[coverage] classes not exercised in this run: " + ", ".join(missing))
     cov["rule"] = spec.get("rule", "")
     if not cov["samples"]:
         cov["samples"] = ["(no sample captured)"]
